@@ -45,9 +45,9 @@ def is_html(scanner: BackwardScanner):
                 if consume_ident(scanner): continue
                 break
             elif consume_attribute_with_unquoted_value(scanner):
-                # identifier was a part of unquoted value
-                ok = True
-                break
+                # identifier was a part of unquoted value: keep looking
+                # for tag name and opening angle bracket
+                continue
 
             # invalid tag
             break
